@@ -113,7 +113,7 @@ func c14Reference(args []any) (fields []zapcore.Field, diags []c14Diag) {
 			break
 		}
 		if k, ok := args[i].(string); ok {
-			fields = append(fields, zap.Any(k, args[i+1]))
+			fields = append(fields, c14RefAny(k, args[i+1]))
 		} else {
 			invalid = append(invalid, c14Pair{i, args[i], args[i+1]})
 		}
@@ -123,6 +123,23 @@ func c14Reference(args []any) (fields []zapcore.Field, diags []c14Diag) {
 		diags = append(diags, c14Diag{kind: "invalid", pairs: invalid})
 	}
 	return
+}
+
+// c14RefAny is the representation zap.Any is documented to choose, written down independently for the values
+// that satisfy several of the interfaces it looks for: marshalers first (object before array), then the
+// concrete types, then error, then fmt.Stringer, finally reflection. No concrete type of the switch has
+// methods of its own except time.Time/time.Duration (Stringers, listed before the Stringer case), so only the
+// order object > array > error > rest needs spelling out.
+func c14RefAny(k string, v any) zapcore.Field {
+	switch x := v.(type) {
+	case zapcore.ObjectMarshaler:
+		return zap.Object(k, x)
+	case zapcore.ArrayMarshaler:
+		return zap.Array(k, x)
+	case error:
+		return zap.NamedError(k, x)
+	}
+	return zap.Any(k, v)
 }
 
 func recString(fs ...zapcore.Field) string {
